@@ -70,6 +70,8 @@ def run_case(case, oracles=("conservation",), custom_share=0.35, force_special=F
         res.count("zero_degree_cases")
     if cfg["flavour"] == "custom" and any(len(m[0]) > 1 for m in cfg["motifs"]):
         res.count("multi_orbit_cases")
+    if cfg["flavour"] == "custom" and any(m[2] in ("generator", "iter") for m in cfg["motifs"]):
+        res.count("oneshot_name_iterables")
     shapes = set()
     for sched in SCHEDULES:
         r = run_generation(res, cfg, jds, sched, oracles)
